@@ -507,6 +507,15 @@ def shallow_copy(I, v):
             f = _find_in_mro(v.cls, "__copy__")
             if f is not None:
                 return I.call(f, [v])
+            ss = _find_in_mro(v.cls, "__setstate__")
+            if isinstance(ss, pytypes.FunctionType):
+                # the copy protocol (object.__reduce_ex__ + copy._reconstruct): a class with its own __setstate__ is handed the
+                # state - for a shallow copy that is x.__dict__ ITSELF, not a copy of it
+                from .interp import ObjDictView, _alias_root
+
+                n = Obj(v.cls, v.name + "_copy", pre=False, fields=v.field_types, strict=v.strict)
+                I.call(ss, [n, ObjDictView(_alias_root(v))])
+                return n
         n = Obj(v.cls, v.name + "_copy", pre=False, fields=v.field_types, strict=v.strict)
         # copy.copy copies every instance attribute: attributes not yet materialised are shared lazily
         n.attrs = LazyCopyAttrs(v)
